@@ -282,6 +282,10 @@ def run(model, tier="quick"):
     for q, src, what in REFS:
         o = [x for x in opq if not q.endswith("." + x)]
         formula_check(res, model, q, src, what, opaque=o)
+    from ..rules.fresh import fresh_rule
+    if "R-FRESH" not in res.rules:
+        res.rules.append("R-FRESH")
+    fresh_rule(model, res, scope=('demeter/uniswap/',))
     res.assumptions = ["error-bound lemma of TickMath given the verified structure and constants (DESIGN.md section 4 C06)",
                        "float math.log accuracy exactly at tick boundaries is not analysed"]
     res.not_decided = ["floating-point accuracy of math.log at exact tick boundaries",
